@@ -151,13 +151,32 @@ def run(check):
                   "type, enabled, stop_if, deploy, wait_for, closure timeout, workflow output, foreach items and parallelism), type-adapted so that Prepare accepts "
                   "them; (B) misbehaving plugins (undeclared output id, ill-typed data, nil data, step-fatal and server-fatal errors, dropped connection) at every "
                   "step of 4 shapes and protocol faults at the run-time deployment; oracle: the child process must not die by panic / fatal error (and must not "
-                  "hang); (C) results that appear only because the run is being terminated and reach steps that are being closed; (D) explicit output schemas that do not fit the workflow (missing root object, dangling reference, other types); (G) a step closed while its input is being handed over (delay at the hand-over point); (H) the misbehaving-plugin cases again with the engine configured to log step outputs (logged_outputs); (F) stage inputs written as plain constants on loop and plugin steps; (E) whole stage inputs (loop items, parallelism, wait_for, closure timeout, stop_if, enabled) that are wait-optional and absent at run time; non-trivial = a fault was injected and the workflow was accepted; distinct = (fault class, position)") % (len(FAULTS), len(POSITIONS))
+                  "hang); (C) results that appear only because the run is being terminated and reach steps that are being closed; (D) explicit output schemas that do not fit the workflow (missing root object, dangling reference, other types); (G) a step closed while its input is being handed over (delay at the hand-over point); (I) several workflow outputs producible in the same delivery round; (H) the misbehaving-plugin cases again with the engine configured to log step outputs (logged_outputs); (F) stage inputs written as plain constants on loop and plugin steps; (E) whole stage inputs (loop items, parallelism, wait_for, closure timeout, stop_if, enabled) that are wait-optional and absent at run time; non-trivial = a fault was injected and the workflow was accepted; distinct = (fault class, position)") % (len(FAULTS), len(POSITIONS))
     check.assumptions = ["workflow inputs are schema-valid", "a rejected workflow is not a violation but is counted (coverage lost)"]
     gs = []
     for (fclass, ftype, fexpr, ov) in FAULTS:
         for (pos, ptype) in POSITIONS:
             gs.append(fault_case(fclass, ftype, fexpr, ov, pos, ptype))
     gs += misbehaving_cases(check)
+    # (I) several workflow outputs that become producible in the same delivery round (they need the same step result, or only
+    # the workflow input)
+    for j in range(check.pick(12, 60)):
+        rng = random.Random(derive_seed(check.seed, "c07-multi-out", j))
+        a = gen.plugin_step("a", Expr(In("tag")))
+        b = gen.plugin_step("b", gen.tagref("a"))
+        kind = j % 4
+        if kind == 0:
+            outs = {"one": {"a": gen.tagref("a")}, "two": {"also": gen.tagref("a")}, "three": {"n": Expr(Ref("a", "outputs", "success"))}}
+        elif kind == 1:
+            outs = {"early": {"t": Expr(In("tag"))}, "early2": {"t2": Expr(In("tag")), "c": "constant"}, "later": {"b": gen.tagref("b")}}
+        elif kind == 2:
+            outs = {"x": {"b": gen.tagref("b"), "a": gen.tagref("a")}, "y": {"b": gen.tagref("b")}, "z": {"b": Expr(Ref("b", "outputs", "success"))}, "w": {"b2": gen.tagref("b")}}
+        else:
+            outs = {"failed": {"why": Expr(Ref("a", "outputs", "error", "reason"))}, "failed_too": {"r": Expr(Ref("a", "outputs", "error"))}, "ok": {"b": gen.tagref("b")}}
+        steps = [a, b]
+        rng.shuffle(steps)
+        gs.append({"program": Program(steps, outs, gen.BASE_INPUT), "scripts": gen.make_scripts(steps, {"a": "error"} if kind == 3 else {}), "input": gen.base_input(rng), "shape": "outputs-ready-together/%d" % kind,
+                   "outcome": {}, "fault": ("several-outputs-ready-together", "kind %d" % kind)})
     # (H) the engine is configured to log the outputs of steps (logged_outputs): every plugin result, declared or not, is
     # also formatted for the log
     for g in misbehaving_cases(check):
